@@ -155,6 +155,31 @@ Proof.
   replace (0 <? 2 + (len body + 2)) with true by lia. f_equal; f_equal; lia.
 Qed.
 
+(* a comment that is not closed before the end of the input *)
+Lemma comment_loop_eof body : no_close body = true -> comment_loop (body ++ [0]) = Some (len body).
+Proof.
+  intros H. induction body as [|c t IH]; cbn [app].
+  - reflexivity.
+  - rewrite comment_loop_cons, eofb_cons_sent, andb_false_r.
+    cbn [no_close] in H. apply andb_true_iff in H. destruct H as [H1 H2]. specialize (IH H2).
+    destruct (c =? 42) eqn:E.
+    + rewrite peekz_sent_0. cbn [option_bind]. destruct t as [|c1 t]; cbn [hd0 app] in *.
+      * change (0 =? 47) with false. cbv beta iota. rewrite IH. cbn [bump]. rewrite len_cons. f_equal; lia.
+      * replace (c1 =? 47) with false by (destruct (c1 =? 47); [discriminate H1|reflexivity]).
+        rewrite IH. cbn [bump]. rewrite !len_cons. f_equal; lia.
+    + rewrite IH. cbn [bump]. rewrite len_cons. f_equal; lia.
+Qed.
+
+Lemma munch_comment_eof body : no_close body = true -> munch TComment (47 :: 42 :: body) [].
+Proof.
+  intros H. split; [|split; [reflexivity|discriminate]].
+  unfold css_scan. cbn [app]. rewrite peekz_0. cbn [option_bind]. repeat dec1.
+  unfold consume_comment. rewrite peekz_0, peekz_1, peekz_0. cbn [option_bind]. repeat dec1. rewrite skipz_2.
+  rewrite (comment_loop_eof body H). cbn [option_bind].
+  unfold pos_tok. rewrite !len_cons. pose proof (len_nonneg body).
+  replace (0 <? 2 + len body) with true by lia. f_equal; f_equal; lia.
+Qed.
+
 Lemma skipz_len_app {A} (t x : list A) : skipz (len t) (t ++ x) = x.
 Proof. unfold skipz, len. rewrite Nat2Z.id. rewrite skipn_app, skipn_all, Nat.sub_diag. reflexivity. Qed.
 
@@ -247,6 +272,27 @@ Proof.
     rewrite Hb2. rewrite !len_cons. f_equal. lia.
 Qed.
 
+Lemma escape_fail r : r = [] \/ is_nl (hd0 r) = true -> consume_escape (92 :: r ++ [0]) = Some 0.
+Proof.
+  intros Hf. unfold consume_escape. rewrite peekz_0. cbn [option_bind negb Z.eqb Pos.eqb tl].
+  destruct Hf as [->|Hnl]; [reflexivity|].
+  destruct r as [|x r]; [discriminate Hnl|]. cbn [hd0 app] in *.
+  destruct (consume_newline_ok (x :: r)) as (n & Hn & _). cbn [app] in Hn. rewrite Hn. cbn [option_bind].
+  rewrite (newline_pos _ _ _ Hn), Hnl. reflexivity.
+Qed.
+
+(* a backslash that starts no escape: before a line break or the end of the input *)
+Definition dead_bs (r : list Z) : Prop := hd0 r = 92 -> tl r = [] \/ is_nl (hd0 (tl r)) = true.
+
+Lemma dead_bs_step r : dead_bs r -> (hd0 r =? 92) = true -> consume_escape (r ++ [0]) = Some 0.
+Proof.
+  intros H E. destruct r as [|c r]; [discriminate E|]. cbn [hd0 tl] in *. assert (c = 92) by lia. subst c.
+  apply (escape_fail r). apply H. reflexivity.
+Qed.
+
+Lemma dead_bs_not r : hd0 r <> 92 -> dead_bs r.
+Proof. intros H E. congruence. Qed.
+
 (* --- class: identifiers, custom properties, functions, at-keywords, hashes -------------------------------------- *)
 (* a name body t followed by r: name bytes and escapes, every escape followed by a byte it tolerates *)
 Inductive nbody : list Z -> list Z -> Prop :=
@@ -267,8 +313,8 @@ Inductive ident_text : list Z -> list Z -> Prop :=
 Inductive custom_text : list Z -> list Z -> Prop :=
 | IT_custom rest r : nbody rest r -> custom_text (45 :: 45 :: rest) r.
 
-(* the follower of a name: not a name byte and not a backslash *)
-Definition name_follow (r : list Z) : Prop := ident_char (hd0 r) = false /\ hd0 r <> 92.
+(* the follower of a name: not a name byte and not the backslash of an escape *)
+Definition name_follow (r : list Z) : Prop := ident_char (hd0 r) = false /\ dead_bs r.
 
 Lemma ident_loop_skipn : forall a l, ident_loop (a ++ l) (length a) =
   match ident_loop l 0 with Some n => Some (len a + n) | None => None end.
@@ -283,7 +329,8 @@ Proof.
   intros Ht [Hr1 Hr2]. induction Ht as [r|c t r Hc Ht IH|e nb t r He Hnb Ht IH].
   - cbn [app]. destruct r as [|c r]; cbn [app hd0] in *; rewrite ident_loop_0.
     + reflexivity.
-    + rewrite Hr1. replace (c =? 92) with false by lia. reflexivity.
+    + rewrite Hr1. destruct (c =? 92) eqn:E92; [|reflexivity].
+      pose proof (dead_bs_step (c :: r) Hr2 E92) as He. cbn [app] in He. rewrite He. reflexivity.
   - cbn [app]. rewrite ident_loop_0, Hc, (IH Hr1 Hr2). cbn [bump]. rewrite len_cons. reflexivity.
   - destruct (esc_text_bs e nb He) as (e' & -> & He').
     pose proof (escape_run _ _ (t ++ r) He Hnb) as Hesc. rewrite <- !app_assoc in *. cbn [app] in *.
@@ -355,12 +402,15 @@ Proof.
   replace (hd0 r =? 40) with false by lia. reflexivity.
 Qed.
 
-(* "u" / "U" directly followed by "+" would start a unicode range *)
+(* "u" / "U" directly followed by "+" and a hex digit or "?" would start a unicode range *)
 Definition u_follow (t r : list Z) : Prop :=
-  match t with [c] => (c =? 117) || (c =? 85) = true -> hd0 r <> 43 | _ => True end.
+  match t with
+  | [c] => (c =? 117) || (c =? 85) = true -> hd0 r = 43 -> is_hex (hd0 (tl r)) = false /\ hd0 (tl r) <> 63
+  | _ => True
+  end.
 
 (* Next on a buffer that starts with a name (not "--"): everything before consumeIdentlike fails *)
-Lemma scan_via_identlike t x ty n : (exists r, ident_text t r) -> (match t with [c] => (c =? 117) || (c =? 85) = true -> hd0 x <> 43 | _ => True end) ->
+Lemma scan_via_identlike t x ty n : (exists r, ident_text t r) -> u_follow t x ->
   consume_identlike (t ++ x ++ [0]) = Some (ty, n) -> is_err ty = false -> css_scan (t ++ x ++ [0]) = Some (ty, n).
 Proof.
   intros (r & Ht) Hu Hil Hty.
@@ -368,15 +418,26 @@ Proof.
   - destruct (ident_core_hd _ _ Hc) as [Hh|Hh]; destruct t0 as [|c t0]; try (apply ident_core_len in Hc; lens; lia);
       cbn [hd0 app] in *; unfold css_scan; rewrite peekz_0; cbn [option_bind].
     + destruct ((c =? 117) || (c =? 85)) eqn:Eu.
-      * repeat dec1. unfold consume_unicode_range. rewrite peekz_0, peekz_1. cbn [option_bind]. rewrite Eu. cbn [negb].
-        assert (Hp : exists c1, peekz (t0 ++ x ++ [0]) 0 = Some c1 /\ c1 <> 43).
-        { destruct t0 as [|c1 t0]; cbn [app].
-          - rewrite peekz_sent_0. eexists; split; [reflexivity|]. apply Hu. reflexivity.
-          - rewrite peekz_0. eexists; split; [reflexivity|].
+      * repeat dec1.
+        assert (Hur : consume_unicode_range (c :: t0 ++ x ++ [0]) = Some 0).
+        { unfold consume_unicode_range. rewrite peekz_0, peekz_1. cbn [option_bind]. rewrite Eu. cbn [negb].
+          destruct t0 as [|c1 t0]; cbn [app].
+          - rewrite peekz_sent_0. cbn [option_bind]. destruct (hd0 x =? 43) eqn:E43; [|reflexivity]. cbn [negb].
+            destruct x as [|x0 x]; [discriminate E43|]. cbn [hd0] in E43. assert (x0 = 43) by lia. subst x0.
+            destruct (Hu Eu eq_refl) as [Hhx Hqx]. cbn [tl hd0] in Hhx, Hqx. cbn [app]. rewrite skipz_2.
+            pose proof (scan_while_run is_hex [] x (Forall_nil _) Hhx eq_refl) as Hs1. cbn [app] in Hs1. rewrite Hs1.
+            cbn [option_bind]. change (len (@nil Z)) with 0. rewrite skipz_0.
+            unfold consume_byte. rewrite peekz_sent_0. cbn [option_bind].
+            destruct (hd0 x =? 45); cbn [Z.ltb Z.compare]; cbv beta iota; [reflexivity|].
+            assert (Hq' : is_qmark (hd0 x) = false) by (unfold is_qmark; lia).
+            pose proof (scan_while_run is_qmark [] x (Forall_nil _) Hq' eq_refl) as Hs2. cbn [app] in Hs2. rewrite Hs2.
+            reflexivity.
+          - rewrite peekz_0. cbn [option_bind].
             assert (Hb : nbody (c1 :: t0) r0) by (inversion Hc as [? ? ? _ Hb|e nb rest ? He _ _ Ee]; [exact Hb|];
               destruct (esc_text_bs _ _ He) as (e' & -> & _); cbn [app] in Ee; injection Ee as Ec _; cls; lia).
-            destruct (nbody_hd _ _ Hb) as [?|[Hx|Hx]]; [discriminate|cbn [hd0] in Hx; cls; lia|cbn [hd0] in Hx; lia]. }
-        destruct Hp as (c1 & -> & Hc1). cbn [option_bind]. replace (c1 =? 43) with false by lia. cbn [negb].
+            assert (c1 <> 43) by (destruct (nbody_hd _ _ Hb) as [?|[Hx|Hx]]; [discriminate|cbn [hd0] in Hx; cls; lia|cbn [hd0] in Hx; lia]).
+            replace (c1 =? 43) with false by lia. reflexivity. }
+        rewrite Hur.
         cbn [option_bind Z.ltb Z.compare]. cbv beta iota. rewrite Hil. cbn [option_bind]. unfold or_delim. cbn [fst]. rewrite Hty. reflexivity.
       * repeat dec1. rewrite numeric_nondigit by (cls; lia). cbn [option_bind fst is_err negb]. rewrite Hil.
         cbn [option_bind]. unfold or_delim. cbn [fst]. rewrite Hty. reflexivity.
@@ -417,7 +478,7 @@ Proof.
 Qed.
 
 Lemma name_follow_paren r : name_follow (40 :: r).
-Proof. split; [reflexivity|cbn; lia]. Qed.
+Proof. split; [reflexivity|apply dead_bs_not; cbn; lia]. Qed.
 
 Lemma munch_function name r : ident_text name (40 :: r) -> is_url_name name = false -> munch TFunction (name ++ [40]) r.
 Proof.
@@ -431,7 +492,7 @@ Proof.
   split; [|split; [reflexivity|destruct name; discriminate]].
   rewrite len_app. change (len [40]) with 1. rewrite <- app_assoc. change ([40] ++ r ++ [0]) with ((40 :: r) ++ [0]).
   apply scan_via_identlike; [eauto| |exact Hil|reflexivity].
-  destruct name as [|c [|c1 n]]; try exact I. intros _. cbn. lia.
+  destruct name as [|c [|c1 n]]; try exact I. intros _ H. cbn in H. lia.
 Qed.
 
 Lemma munch_at_keyword name r : ident_text name r \/ custom_text name r -> name_follow r ->
@@ -672,14 +733,22 @@ Proof.
   exists c1, (rest' ++ x). split; [reflexivity|exact Hc].
 Qed.
 
-(* nothing that could continue a number as a dimension *)
-Definition no_name_start (r : list Z) : Prop := ident_start (hd0 r) = false /\ hd0 r <> 45 /\ hd0 r <> 92.
+(* nothing that could continue a number as a dimension: no name start, no live escape, and a "-" only when no name
+   follows it ("1-2", "1- ") *)
+Definition no_dash_name (r : list Z) : Prop := ident_start (hd0 r) = false /\ hd0 r <> 45 /\ dead_bs r.
+Definition no_name_start (r : list Z) : Prop :=
+  ident_start (hd0 r) = false /\ dead_bs r /\ (hd0 r = 45 -> no_dash_name (tl r)).
 
 Lemma ident_token_fail r : no_name_start r -> consume_ident_token (r ++ [0]) = Some 0.
 Proof.
-  intros (H1 & H2 & H3). unfold consume_ident_token. rewrite peekz_sent_0. cbn [option_bind].
-  replace (hd0 r =? 45) with false by lia. unfold ident_tail. rewrite skipz_0, peekz_sent_0. cbn [option_bind].
-  rewrite H1. replace (hd0 r =? 92) with false by lia. reflexivity.
+  intros (H1 & H3 & H2). unfold consume_ident_token. rewrite peekz_sent_0. cbn [option_bind].
+  destruct (hd0 r =? 45) eqn:E45.
+  - destruct r as [|c r']; [discriminate E45|]. cbn [hd0 tl] in *. assert (c = 45) by lia. subst c.
+    destruct (H2 eq_refl) as (G1 & G2 & G3). cbn [app]. rewrite peekz_1, peekz_sent_0. cbn [option_bind].
+    replace (hd0 r' =? 45) with false by lia. unfold ident_tail. rewrite skipz_1, peekz_sent_0. cbn [option_bind].
+    rewrite G1. destruct (hd0 r' =? 92) eqn:E92; [rewrite (dead_bs_step r' G3 E92)|]; reflexivity.
+  - unfold ident_tail. rewrite skipz_0, peekz_sent_0. cbn [option_bind].
+    rewrite H1. destruct (hd0 r =? 92) eqn:E92; [rewrite (dead_bs_step r H3 E92)|]; reflexivity.
 Qed.
 
 Lemma num_text_nonempty sg ip fd ex : (ip <> [] \/ fd <> []) -> 0 < len (sg ++ ip ++ frac fd ++ ex).
@@ -791,15 +860,6 @@ Proof.
     rewrite len_cons. f_equal; f_equal; lia.
 Qed.
 
-Lemma escape_fail r : r = [] \/ is_nl (hd0 r) = true -> consume_escape (92 :: r ++ [0]) = Some 0.
-Proof.
-  intros Hf. unfold consume_escape. rewrite peekz_0. cbn [option_bind negb Z.eqb Pos.eqb tl].
-  destruct Hf as [->|Hnl]; [reflexivity|].
-  destruct r as [|x r]; [discriminate Hnl|]. cbn [hd0 app] in *.
-  destruct (consume_newline_ok (x :: r)) as (n & Hn & _). cbn [app] in Hn. rewrite Hn. cbn [option_bind].
-  rewrite (newline_pos _ _ _ Hn), Hnl. reflexivity.
-Qed.
-
 Lemma line_break_run nlb y : line_break nlb y -> consume_newline (nlb ++ y ++ [0]) = Some (len nlb) /\ is_nl (hd0 nlb) = true.
 Proof.
   intros [->|[->|[->|[-> Hy]]]]; (split; [|reflexivity]); unfold consume_newline; cbn [app]; rewrite peekz_0; cbn [option_bind];
@@ -881,21 +941,27 @@ Proof.
 Qed.
 
 (* a string that is not closed before the end of the input (optionally ending in a lone backslash) *)
-Lemma munch_string_eof q body bs : is_quote q -> sbody q body bs -> (bs = [] \/ bs = [92]) ->
-  munch TString (q :: body ++ bs) [].
+Lemma consume_string_eof q body bs : is_quote q -> sbody q body bs -> (bs = [] \/ bs = [92]) ->
+  consume_string (q :: body ++ bs ++ [0]) = Some (TString, len (q :: body ++ bs)).
 Proof.
-  intros Hq Hb Hbs. split; [|split; [reflexivity|discriminate]].
-  cbn [app]. rewrite (scan_quote q _ Hq). unfold consume_string. rewrite peekz_0. cbn [option_bind tl].
-  rewrite <- app_assoc. rewrite (string_loop_body q body bs Hq Hb).
+  intros Hq Hb Hbs. unfold consume_string. rewrite peekz_0. cbn [option_bind tl].
+  rewrite (string_loop_body q body bs Hq Hb).
   destruct Hbs as [->| ->]; cbn [app].
-  - rewrite string_loop_0. cbn [eofb Z.eqb andb shift2 bump2 option_bind]. unfold or_delim. cbn [fst is_err].
+  - rewrite string_loop_0. cbn [eofb Z.eqb andb shift2 bump2 option_bind].
     rewrite app_nil_r, len_cons. f_equal; f_equal; lia.
   - rewrite string_loop_0. change (92 =? 0) with false. change (is_nl 92) with false.
     replace (92 =? q) with false by (destruct Hq; subst; reflexivity). change (92 =? 92) with true. cbn [andb]. cbv beta iota.
     change (consume_escape [92; 0]) with (Some 0). cbn [option_bind Z.ltb Z.compare]. cbv beta iota.
     change (consume_newline [0]) with (Some 0). cbn [option_bind Z.to_nat]. rewrite string_loop_0.
-    cbn [eofb Z.eqb andb shift2 bump2 option_bind]. unfold or_delim. cbn [fst is_err].
+    cbn [eofb Z.eqb andb shift2 bump2 option_bind].
     rewrite len_cons, len_app. change (len [92]) with 1. f_equal; f_equal; lia.
+Qed.
+
+Lemma munch_string_eof q body bs : is_quote q -> sbody q body bs -> (bs = [] \/ bs = [92]) ->
+  munch TString (q :: body ++ bs) [].
+Proof.
+  intros Hq Hb Hbs. split; [|split; [reflexivity|discriminate]].
+  cbn [app]. rewrite (scan_quote q _ Hq). rewrite <- app_assoc. rewrite (consume_string_eof q body bs Hq Hb Hbs). reflexivity.
 Qed.
 
 (* --- class: delimiters ------------------------------------------------------------------------------------------ *)
@@ -912,15 +978,15 @@ Definition delim_ok (c : Z) (r : list Z) : Prop :=
   (c = 64 /\ no_name_start r) \/
   (c = 43 /\ is_digit (hd0 r) = false /\ (hd0 r = 46 -> is_digit (second r) = false)) \/
   (c = 46 /\ is_digit (hd0 r) = false) \/
-  (c = 45 /\ is_digit (hd0 r) = false /\ hd0 r <> 46 /\ no_name_start r) \/
+  (c = 45 /\ is_digit (hd0 r) = false /\ (hd0 r = 46 -> is_digit (second r) = false) /\ hd0 r <> 45 /\ no_name_start r) \/
   ((c = 36 \/ c = 42 \/ c = 94 \/ c = 126) /\ hd0 r <> 61) \/
   (c = 124 /\ hd0 r <> 61 /\ hd0 r <> 124) \/
   (c = 47 /\ hd0 r <> 42) \/
-  (c = 60 /\ hd0 r <> 33) \/
+  (c = 60 /\ ~ (hd0 r = 33 /\ second r = 45 /\ third r = 45)) \/
   (c = 92 /\ (r = [] \/ is_nl (hd0 r) = true)).
 
 Lemma ident_token_fail_cons c r : ident_start c = false -> c <> 45 -> c <> 92 -> consume_ident_token (c :: r ++ [0]) = Some 0.
-Proof. intros H1 H2 H3. apply (ident_token_fail (c :: r)). repeat split; assumption. Qed.
+Proof. intros H1 H2 H3. apply (ident_token_fail (c :: r)). split; [exact H1|split; [apply dead_bs_not; exact H3|cbn [hd0]; intros; congruence]]. Qed.
 
 Lemma identlike_fail l : consume_ident_token l = Some 0 -> consume_identlike l = Some (TError, 0).
 Proof. intros H. unfold consume_identlike. rewrite H. reflexivity. Qed.
@@ -929,13 +995,13 @@ Lemma munch_delim c r : delim_ok c r -> munch TDelim [c] r.
 Proof.
   intros H. split; [|split; [reflexivity|discriminate]]. cbn [app]. change (len [c]) with 1.
   unfold css_scan. rewrite peekz_0. cbn [option_bind].
-  destruct H as [H|[H|[(-> & Hf1 & Hf2)|[(-> & Hn)|[(-> & Hd & Hdot)|[(-> & Hd)|[(-> & Hd & H46 & Hn)|[(Hc & Hf)|[(-> & Hf1 & Hf2)|[(-> & Hf)|[(-> & Hf)|(-> & Hf)]]]]]]]]]]].
+  destruct H as [H|[H|[(-> & Hf1 & Hf2)|[(-> & Hn)|[(-> & Hd & Hdot)|[(-> & Hd)|[(-> & Hd & H46 & Hn2 & Hn)|[(Hc & Hf)|[(-> & Hf1 & Hf2)|[(-> & Hf)|[(-> & Hf)|(-> & Hf)]]]]]]]]]]].
   - (* a byte that starts nothing *)
     unfold plain_delim in H. repeat dec1. rewrite numeric_nondigit by (cls; lia). cbn [option_bind fst is_err negb].
     rewrite identlike_fail by (apply ident_token_fail_cons; cls; lia). reflexivity.
   - subst c. repeat dec1. rewrite eofb_cons_sent. reflexivity.
   - repeat dec1. unfold consume_hash. cbn [tl]. rewrite peekz_sent_0. cbn [option_bind]. rewrite Hf1.
-    replace (hd0 r =? 92) with false by lia. reflexivity.
+    destruct (hd0 r =? 92) eqn:E92; [rewrite (dead_bs_step r Hf2 E92)|]; reflexivity.
   - repeat dec1. unfold consume_at_keyword. cbn [tl]. rewrite (ident_token_fail r Hn). reflexivity.
   - repeat dec1. unfold consume_numeric, consume_number_token. rewrite peekz_0. cbn [option_bind].
     change (is_sign 43) with true. cbv beta iota. rewrite skipz_1.
@@ -954,7 +1020,7 @@ Proof.
     assert (Hdg : digits (r ++ [0]) = Some 0).
     { unfold digits. destruct r as [|x r]; cbn [app hd0] in *; rewrite scan_while_cons; [reflexivity|rewrite Hd; reflexivity]. }
     rewrite Hdg. reflexivity.
-  - destruct Hn as (Hn1 & Hn2 & Hn3). repeat dec1.
+  - destruct Hn as (Hn1 & Hn3 & _). repeat dec1.
     unfold consume_cdc. rewrite peekz_0, peekz_1, peekz_sent_0. cbn [option_bind]. repeat dec1.
     replace (hd0 r =? 45) with false by lia. cbn [negb option_bind Z.ltb Z.compare]. cbv beta iota.
     unfold consume_custom_variable. rewrite peekz_1, peekz_sent_0. cbn [option_bind].
@@ -962,14 +1028,18 @@ Proof.
     assert (Hit : consume_ident_token (45 :: r ++ [0]) = Some 0).
     { unfold consume_ident_token. rewrite peekz_0, peekz_1, peekz_sent_0. cbn [option_bind]. change (45 =? 45) with true.
       cbv beta iota. replace (hd0 r =? 45) with false by lia. unfold ident_tail. rewrite skipz_1, peekz_sent_0.
-      cbn [option_bind]. rewrite Hn1. replace (hd0 r =? 92) with false by lia. reflexivity. }
+      cbn [option_bind]. rewrite Hn1. destruct (hd0 r =? 92) eqn:E92; [rewrite (dead_bs_step r Hn3 E92)|]; reflexivity. }
     rewrite (identlike_fail _ Hit). cbn [option_bind fst is_err negb].
     unfold consume_numeric, consume_number_token. rewrite peekz_0. cbn [option_bind].
     change (is_sign 45) with true. cbv beta iota. rewrite skipz_1.
     assert (Hdg : digits (r ++ [0]) = Some 0).
     { unfold digits. destruct r as [|x r]; cbn [app hd0] in *; rewrite scan_while_cons; [reflexivity|rewrite Hd; reflexivity]. }
     rewrite Hdg. cbn [option_bind]. rewrite skipz_0, peekz_sent_0. cbn [option_bind].
-    replace (hd0 r =? 46) with false by lia. reflexivity.
+    destruct (hd0 r =? 46) eqn:E46; [|reflexivity].
+    destruct r as [|x r]; [discriminate E46|]. cbn [hd0 app tl] in *. unfold second in H46. cbn [tl] in H46.
+    assert (Hdg2 : digits (r ++ [0]) = Some 0).
+    { unfold digits. destruct r as [|y r]; cbn [app hd0] in *; rewrite scan_while_cons; [reflexivity|rewrite H46 by lia; reflexivity]. }
+    rewrite Hdg2. reflexivity.
   - assert (Hm : consume_match (c :: r ++ [0]) = Some (TError, 0)).
     { unfold consume_match. rewrite peekz_1, peekz_sent_0. cbn [option_bind]. replace (hd0 r =? 61) with false by lia. reflexivity. }
     repeat dec1. rewrite Hm. reflexivity.
@@ -980,7 +1050,11 @@ Proof.
   - repeat dec1. unfold consume_comment. rewrite peekz_0, peekz_1, peekz_sent_0. cbn [option_bind]. repeat dec1.
     replace (hd0 r =? 42) with false by lia. reflexivity.
   - repeat dec1. unfold consume_cdo. rewrite peekz_0, peekz_1, peekz_sent_0. cbn [option_bind]. repeat dec1.
-    replace (hd0 r =? 33) with false by lia. reflexivity.
+    destruct (hd0 r =? 33) eqn:E1; [|reflexivity]. cbn [negb].
+    destruct r as [|c1 r1]; [discriminate E1|]. cbn [hd0 app] in *. rewrite peekz_2, peekz_1, peekz_sent_0. cbn [option_bind].
+    destruct (hd0 r1 =? 45) eqn:E2; [|reflexivity]. cbn [negb].
+    destruct r1 as [|c2 r2]; [discriminate E2|]. cbn [hd0 app] in *. rewrite peekz_3, peekz_2, peekz_1, peekz_sent_0. cbn [option_bind].
+    replace (hd0 r2 =? 45) with false; [reflexivity|]. symmetry. apply Z.eqb_neq. intros E3. apply Hf. unfold second, third. cbn [tl hd0]. lia.
   - repeat dec1.
     assert (Hesc : consume_escape (92 :: r ++ [0]) = Some 0).
     { unfold consume_escape. rewrite peekz_0. cbn [option_bind negb Z.eqb Pos.eqb tl].
@@ -1043,10 +1117,381 @@ Proof.
   replace (0 <? len (u :: rest)) with true by lia. reflexivity.
 Qed.
 
+(* --- class: url( ) and bad-url --------------------------------------------------------------------------------- *)
+Ltac rassoc := repeat (rewrite <- ?app_assoc; progress cbn [app]); rewrite <- ?app_assoc.
+Ltac rassoc_in H := repeat (rewrite <- ?app_assoc in H; progress cbn [app] in H); rewrite <- ?app_assoc in H.
+
+(* the follower of a name only matters through its first byte *)
+Lemma nbody_follow t r r' : nbody t r -> hd0 r = hd0 r' -> nbody t r'.
+Proof.
+  intros H E. induction H as [r|c t r Hc Ht IH|e nb t r He Hnb Ht IH]; [constructor|constructor; auto|].
+  apply (NB_esc e nb); [exact He| |auto]. rewrite hd0_app in *. destruct t; [rewrite <- E; exact Hnb|exact Hnb].
+Qed.
+Lemma ident_core_follow t r r' : ident_core t r -> hd0 r = hd0 r' -> ident_core t r'.
+Proof.
+  intros [c rest r0 Hc Hb|e nb rest r0 He Hnb Hb] E.
+  - apply IC_char; [exact Hc|eapply nbody_follow; eassumption].
+  - apply (IC_esc e nb); [exact He| |eapply nbody_follow; eassumption].
+    rewrite hd0_app in *. destruct rest; [rewrite <- E; exact Hnb|exact Hnb].
+Qed.
+Lemma ident_text_follow t r r' : ident_text t r -> hd0 r = hd0 r' -> ident_text t r'.
+Proof. intros [t0 r0 H|t0 r0 H] E; [apply IT_core|apply IT_dash]; eapply ident_core_follow; eassumption. Qed.
+
+(* a name that reads "url" once backslashes are dropped, in any letter case *)
+Definition url_name (name : list Z) : Prop := ident_text name [40] /\ is_url_name name = true.
+
+(* how a url ends: with ")" or with the end of the input *)
+Inductive closer : list Z -> list Z -> Prop :=
+| CL_paren r : closer [41] r
+| CL_eof : closer [] [].
+
+Definition url_byte (c : Z) : bool := negb (url_bad_char c) && negb (c =? 41).
+Inductive ubody : list Z -> list Z -> Prop :=
+| UB_nil r : ubody [] r
+| UB_char c t r : url_byte c = true -> ubody t r -> ubody (c :: t) r
+| UB_esc e nb t r : esc_text e nb -> nb (hd0 (t ++ r)) = true -> ubody t r -> ubody (e ++ t) r.
+
+(* what consumeRemnantsBadURL skips: any byte but ")", whole escapes (so "\)" does not close), lone backslashes *)
+Inductive rbody : list Z -> list Z -> Prop :=
+| RB_nil r : rbody [] r
+| RB_char c t r : c <> 41 -> c <> 92 -> rbody t r -> rbody (c :: t) r
+| RB_esc e nb t r : esc_text e nb -> nb (hd0 (t ++ r)) = true -> rbody t r -> rbody (e ++ t) r
+| RB_bs t r : t ++ r = [] \/ is_nl (hd0 (t ++ r)) = true -> rbody t r -> rbody (92 :: t) r.
+
+Definition shift (n : Z) (o : option Z) : option Z := match o with Some m => Some (n + m) | None => None end.
+
+Lemma url_loop_skipn : forall a l, url_loop (a ++ l) (length a) = shift2 (len a) (url_loop l 0).
+Proof.
+  induction a as [|x a IH]; intros l; cbn [app length].
+  - change (len (@nil Z)) with 0. destruct (url_loop l 0) as [[ty n]|]; reflexivity.
+  - rewrite url_loop_skip, IH. destruct (url_loop l 0) as [[ty n]|]; cbn [bump2 shift2]; [|reflexivity].
+    rewrite len_cons. f_equal; f_equal; lia.
+Qed.
+
+Lemma badurl_loop_skipn : forall a l, badurl_loop (a ++ l) (length a) = shift (len a) (badurl_loop l 0).
+Proof.
+  induction a as [|x a IH]; intros l; cbn [app length].
+  - change (len (@nil Z)) with 0. destruct (badurl_loop l 0); reflexivity.
+  - rewrite badurl_loop_skip, IH. destruct (badurl_loop l 0); cbn [bump shift]; [|reflexivity].
+    rewrite len_cons. f_equal; lia.
+Qed.
+
+Lemma url_loop_body body x : ubody body x -> url_loop (body ++ x ++ [0]) 0 = shift2 (len body) (url_loop (x ++ [0]) 0).
+Proof.
+  intros Hb. induction Hb as [x|y body x Hy Hb IH|e nb t x He Hnb Ht IH].
+  - cbn [app]. change (len (@nil Z)) with 0. destruct (url_loop (x ++ [0]) 0) as [[ty n]|]; reflexivity.
+  - cbn [app]. rewrite url_loop_0. unfold url_byte in Hy. apply andb_true_iff in Hy. destruct Hy as [Hy1 Hy2].
+    replace (url_bad_char y) with false by (destruct (url_bad_char y); [discriminate|reflexivity]).
+    replace (y =? 41) with false by (destruct (y =? 41); [discriminate|reflexivity]).
+    replace (y =? 0) with false by (revert Hy1; cls; lia). cbn [andb orb].
+    rewrite IH. destruct (url_loop (x ++ [0]) 0) as [[ty n]|]; cbn [bump2 shift2]; [|reflexivity].
+    rewrite len_cons. f_equal; f_equal; lia.
+  - destruct (esc_text_bs e nb He) as (e' & -> & He').
+    pose proof (escape_run _ _ (t ++ x) He Hnb) as Hesc. rewrite <- !app_assoc in *. cbn [app] in *.
+    rewrite url_loop_0. change (92 =? 0) with false. change (92 =? 41) with false. change (url_bad_char 92) with true.
+    change (92 =? 92) with true. cbn [andb orb]. cbv beta iota.
+    rewrite Hesc. cbn [option_bind]. rewrite len_cons. replace (0 <? 1 + len e') with true by lia.
+    replace (Z.to_nat (1 + len e' - 1)) with (length e') by (unfold len; lia).
+    rewrite url_loop_skipn, IH. destruct (url_loop (x ++ [0]) 0) as [[ty n]|]; cbn [bump2 shift2]; [|reflexivity].
+    rewrite !len_cons, len_app. f_equal; f_equal; lia.
+Qed.
+
+Lemma escape_not_bs c l : c <> 92 -> consume_escape (c :: l) = Some 0.
+Proof. intros H. unfold consume_escape. rewrite peekz_0. cbn [option_bind]. replace (c =? 92) with false by lia. reflexivity. Qed.
+
+Lemma badurl_loop_body rem x : rbody rem x -> badurl_loop (rem ++ x ++ [0]) 0 = shift (len rem) (badurl_loop (x ++ [0]) 0).
+Proof.
+  intros Hb. induction Hb as [x|y t x Hy1 Hy2 Hb IH|e nb t x He Hnb Ht IH|t x Hf Ht IH].
+  - cbn [app]. change (len (@nil Z)) with 0. destruct (badurl_loop (x ++ [0]) 0); reflexivity.
+  - cbn [app]. rewrite badurl_loop_0. replace (y =? 41) with false by lia. rewrite app_assoc, eofb_cons_sent, <- app_assoc.
+    rewrite (escape_not_bs y _ Hy2). cbn [option_bind Z.ltb Z.compare]. cbv beta iota.
+    rewrite IH. destruct (badurl_loop (x ++ [0]) 0); cbn [bump shift]; [|reflexivity]. rewrite len_cons. f_equal; lia.
+  - destruct (esc_text_bs e nb He) as (e' & -> & He').
+    pose proof (escape_run _ _ (t ++ x) He Hnb) as Hesc. rewrite <- !app_assoc in *. cbn [app] in *.
+    rewrite badurl_loop_0. change (92 =? 41) with false. cbv beta iota.
+    replace (eofb (92 :: e' ++ t ++ x ++ [0])) with false
+      by (symmetry; replace (e' ++ t ++ x ++ [0]) with ((e' ++ t ++ x) ++ [0]) by (rewrite <- !app_assoc; reflexivity); apply eofb_cons_sent).
+    rewrite Hesc. cbn [option_bind]. rewrite len_cons. replace (0 <? 1 + len e') with true by lia.
+    replace (Z.to_nat (1 + len e' - 1)) with (length e') by (unfold len; lia).
+    rewrite badurl_loop_skipn, IH. destruct (badurl_loop (x ++ [0]) 0); cbn [bump shift]; [|reflexivity].
+    rewrite !len_cons, len_app. f_equal; lia.
+  - cbn [app]. rewrite badurl_loop_0. change (92 =? 41) with false. cbv beta iota.
+    rewrite app_assoc, eofb_cons_sent. rewrite (escape_fail _ Hf). cbn [option_bind Z.ltb Z.compare]. cbv beta iota.
+    rewrite <- app_assoc, IH. destruct (badurl_loop (x ++ [0]) 0); cbn [bump shift]; [|reflexivity]. rewrite len_cons. f_equal; lia.
+Qed.
+
+Lemma closer_badurl cl r : closer cl r -> badurl_loop (cl ++ r ++ [0]) 0 = Some (len cl).
+Proof. intros [r0|]; cbn [app]; [rewrite badurl_loop_0|]; reflexivity. Qed.
+
+Lemma closer_hd cl r : closer cl r -> hd0 (cl ++ r) = 41 \/ hd0 (cl ++ r) = 0.
+Proof. intros [r0|]; [left|right]; reflexivity. Qed.
+
+Lemma closer_url_loop cl r : closer cl r -> url_loop (cl ++ r ++ [0]) 0 = Some (true, 0).
+Proof. intros [r0|]; cbn [app]; [rewrite url_loop_0, orb_true_r|]; reflexivity. Qed.
+
+Lemma badurl_run rem cl r : rbody rem (cl ++ r) -> closer cl r ->
+  badurl_loop (rem ++ cl ++ r ++ [0]) 0 = Some (len rem + len cl).
+Proof.
+  intros Hb Hc. pose proof (badurl_loop_body rem (cl ++ r) Hb) as H. rewrite <- app_assoc in H. rewrite H.
+  rewrite (closer_badurl cl r Hc). reflexivity.
+Qed.
+
+(* after the url proper: optional whitespace, then the closer -> URL *)
+Lemma url_end_close n ws2 cl r : all_b is_ws ws2 -> closer cl r ->
+  url_end n (ws2 ++ cl ++ r ++ [0]) = Some (TURL, n + len ws2 + len cl).
+Proof.
+  intros Hw Hc. unfold url_end.
+  replace (ws2 ++ cl ++ r ++ [0]) with (ws2 ++ (cl ++ r) ++ [0]) by (rewrite <- app_assoc; reflexivity).
+  rewrite (scan_while_run is_ws ws2 (cl ++ r) Hw) by (try reflexivity; destruct (closer_hd cl r Hc) as [-> | ->]; reflexivity).
+  cbn [option_bind]. rewrite skipz_len_app. destruct Hc as [r0|]; cbn [app].
+  - unfold consume_byte. rewrite peekz_0. cbn [option_bind]. reflexivity.
+  - unfold consume_byte. cbn. f_equal; f_equal; lia.
+Qed.
+
+(* ... or something else -> bad-url up to the closer *)
+Lemma url_end_bad n ws2 rem cl r : all_b is_ws ws2 -> rem <> [] -> is_ws (hd0 rem) = false -> hd0 rem <> 41 ->
+  rbody rem (cl ++ r) -> closer cl r ->
+  url_end n (ws2 ++ rem ++ cl ++ r ++ [0]) = Some (TBadURL, n + len ws2 + len rem + len cl).
+Proof.
+  intros Hw Hne Hws H41 Hb Hc. unfold url_end.
+  replace (ws2 ++ rem ++ cl ++ r ++ [0]) with (ws2 ++ (rem ++ cl ++ r) ++ [0]) by (rewrite <- !app_assoc; reflexivity).
+  assert (Hhd : hd0 (rem ++ cl ++ r) = hd0 rem) by (destruct rem; [congruence|reflexivity]).
+  rewrite (scan_while_run is_ws ws2 (rem ++ cl ++ r) Hw) by (try reflexivity; rewrite Hhd; exact Hws).
+  cbn [option_bind]. rewrite skipz_len_app. unfold consume_byte. rewrite peekz_sent_0, Hhd. cbn [option_bind].
+  replace (hd0 rem =? 41) with false by lia. cbn [Z.ltb Z.compare orb].
+  replace (eofb ((rem ++ cl ++ r) ++ [0])) with false by (destruct rem; [congruence|symmetry; apply eofb_cons_sent]).
+  rewrite <- !app_assoc. rewrite (badurl_run rem cl r Hb Hc). cbn [option_bind]. f_equal; f_equal; lia.
+Qed.
+
+(* a quoted url argument s followed by y: a string, a bad string (bad = true), or a string cut by the end of input *)
+Inductive qarg : list Z -> list Z -> bool -> Prop :=
+| QA_str q sb y : is_quote q -> sbody q sb (q :: y) -> qarg (q :: sb ++ [q]) y false
+| QA_bad q sb nl y : is_quote q -> sbody q sb (nl :: y) -> is_nl nl = true -> qarg (q :: sb ++ [nl]) y true
+| QA_eof q sb bs : is_quote q -> sbody q sb bs -> bs = [] \/ bs = [92] -> qarg (q :: sb ++ bs) [] false.
+
+Lemma qarg_run s y bad : qarg s y bad ->
+  consume_string (s ++ y ++ [0]) = Some (if bad then TBadString else TString, len s) /\
+  ((hd0 s =? 34) || (hd0 s =? 39) = true) /\ s <> [].
+Proof.
+  intros [q sb y0 Hq Hb|q sb nl y0 Hq Hb Hnl|q sb bs Hq Hb Hbs]; (split; [|split; [destruct Hq; subst; reflexivity|discriminate]]).
+  - rassoc. rewrite (consume_string_run q sb q y0 Hq Hb (or_introl eq_refl)).
+    replace (is_nl q) with false by (destruct Hq; subst; reflexivity). reflexivity.
+  - rassoc. rewrite (consume_string_run q sb nl y0 Hq Hb (or_intror Hnl)). rewrite Hnl. reflexivity.
+  - rassoc. apply consume_string_eof; assumption.
+Qed.
+
+(* Next on  name "(" ws* z  with a url name: the url argument decides *)
+Lemma scan_url name ws1 z ty n : url_name name -> all_b is_ws ws1 -> is_ws (hd0 z) = false ->
+  url_arg (len name + 1 + len ws1) (z ++ [0]) = Some (ty, n) -> is_err ty = false ->
+  css_scan (name ++ 40 :: ws1 ++ z ++ [0]) = Some (ty, n).
+Proof.
+  intros [Ht0 Hurl] Hw Hz Harg Hty.
+  assert (Ht : ident_text name (40 :: ws1 ++ z)) by (eapply ident_text_follow; [exact Ht0|reflexivity]).
+  pose proof (ident_token_run name _ (or_introl Ht) (name_follow_paren _)) as Hit.
+  pose proof (ident_text_len name _ Ht) as Hlen.
+  assert (Hil : consume_identlike (name ++ (40 :: ws1 ++ z) ++ [0]) = Some (ty, n)).
+  { unfold consume_identlike. rewrite Hit. cbn [option_bind]. replace (len name =? 0) with false by lia.
+    rewrite skipz_len_app. cbn [app]. rewrite peekz_0. cbn [option_bind]. change (negb (40 =? 40)) with false.
+    cbv beta iota. rewrite firstz_len_app. rewrite Hurl. cbn [negb tl]. rewrite <- app_assoc.
+    rewrite (scan_while_run is_ws ws1 z Hw Hz eq_refl). cbn [option_bind]. rewrite skipz_len_app. exact Harg. }
+  pose proof (scan_via_identlike name (40 :: ws1 ++ z) ty n) as H. rassoc_in H. rassoc_in Hil. apply H; [eauto| |exact Hil|exact Hty].
+  destruct name as [|c [|c1 n']]; try exact I. intros _. exfalso. unfold is_url_name, strip_backslash in Hurl.
+  cbn [filter] in Hurl. destruct (negb (c =? 92)); discriminate.
+Qed.
+
+Lemma url_arg_quoted n s y bad : qarg s y bad ->
+  url_arg n (s ++ y ++ [0]) =
+    if bad then r <- badurl_loop (y ++ [0]) 0 ;; Some (TBadURL, n + len s + r) else url_end (n + len s) (y ++ [0]).
+Proof.
+  intros Hs. destruct (qarg_run _ _ _ Hs) as (Hrun & Hq & Hne). unfold url_arg. rewrite Hrun.
+  destruct s as [|c s]; [congruence|]. cbn [app hd0] in *. rewrite peekz_0. cbn [option_bind]. rewrite Hq.
+  cbn [fst snd]. change (c :: s ++ y ++ [0]) with ((c :: s) ++ y ++ [0]). rewrite skipz_len_app.
+  destruct bad; reflexivity.
+Qed.
+
+Definition not_quote (c : Z) : Prop := (c =? 34) || (c =? 39) = false.
+
+Lemma ubody_hd body x : ubody body x -> body <> [] -> (url_byte (hd0 body) = true \/ hd0 body = 92).
+Proof.
+  intros [x0|c t x0 Hc _|e nb t x0 He _ _] Hne; [congruence|left; exact Hc|right].
+  destruct (esc_text_bs _ _ He) as (e' & -> & _). reflexivity.
+Qed.
+
+Lemma ubody_hd_ok body x : ubody body x -> body <> [] -> not_quote (hd0 body) /\ is_ws (hd0 body) = false.
+Proof.
+  intros Hb Hne. destruct (ubody_hd _ _ Hb Hne) as [H|H].
+  - unfold url_byte in H. apply andb_true_iff in H. destruct H as [H _]. unfold not_quote. revert H. cls. lia.
+  - rewrite H. split; reflexivity.
+Qed.
+
+(* the unquoted argument runs to x where consumeUnquotedURL returns true (")" or end of input) *)
+Lemma url_arg_open n body x : ubody body x -> not_quote (hd0 (body ++ x)) -> url_loop (x ++ [0]) 0 = Some (true, 0) ->
+  url_arg n (body ++ x ++ [0]) = url_end (n + len body) (x ++ [0]).
+Proof.
+  intros Hb Hq Hx. unfold url_arg. rewrite app_assoc, peekz_sent_0, <- app_assoc. cbn [option_bind]. rewrite Hq.
+  rewrite (url_loop_body body x Hb), Hx. cbn [shift2 option_bind fst snd]. rewrite Z.add_0_r, skipz_len_app. reflexivity.
+Qed.
+
+(* ... or to a byte where it returns false *)
+Lemma url_arg_stop n body x : ubody body x -> not_quote (hd0 (body ++ x)) -> url_loop (x ++ [0]) 0 = Some (false, 0) ->
+  url_arg n (body ++ x ++ [0]) =
+    (ws <- consume_whitespace (x ++ [0]) ;;
+     if 0 <? ws then url_end (n + len body + 1) (skipz (len body + 1) (body ++ x ++ [0]))
+     else r <- badurl_loop (x ++ [0]) 0 ;; Some (TBadURL, n + len body + r)).
+Proof.
+  intros Hb Hq Hx. unfold url_arg. rewrite app_assoc, peekz_sent_0, <- app_assoc. cbn [option_bind]. rewrite Hq.
+  rewrite (url_loop_body body x Hb), Hx. cbn [shift2 option_bind fst snd]. rewrite Z.add_0_r, skipz_len_app. reflexivity.
+Qed.
+
+Lemma url_loop_ws w x : is_ws w = true -> url_loop (w :: x ++ [0]) 0 = Some (false, 0).
+Proof.
+  intros Hw. rewrite url_loop_0, eofb_cons_sent, andb_false_r. cbn [orb].
+  replace (w =? 41) with false by (revert Hw; cls; lia). replace (url_bad_char w) with true by (revert Hw; cls; lia).
+  replace (w =? 92) with false by (revert Hw; cls; lia). reflexivity.
+Qed.
+
+(* a byte that stops an unquoted url without being whitespace: a quote, "(", a control byte, DEL, or a backslash that
+   starts no escape *)
+Definition url_stop (bc : Z) (y : list Z) : Prop :=
+  url_bad_char bc = true /\ is_ws bc = false /\ (bc = 92 -> y = [] \/ is_nl (hd0 y) = true).
+
+Lemma url_loop_stop bc y : url_stop bc y -> url_loop (bc :: y ++ [0]) 0 = Some (false, 0).
+Proof.
+  intros (Hb & Hw & H92). rewrite url_loop_0, eofb_cons_sent, andb_false_r. cbn [orb].
+  replace (bc =? 41) with false by (revert Hb; cls; lia). rewrite Hb.
+  destruct (bc =? 92) eqn:E; [|reflexivity]. assert (bc = 92) by lia. subst bc.
+  rewrite (escape_fail y (H92 eq_refl)). reflexivity.
+Qed.
+
+Lemma munch_url_unquoted name ws1 body ws2 cl r :
+  url_name name -> all_b is_ws ws1 -> ubody body (ws2 ++ cl ++ r) -> all_b is_ws ws2 -> (body = [] -> ws2 = []) ->
+  closer cl r -> munch TURL (name ++ 40 :: ws1 ++ body ++ ws2 ++ cl) r.
+Proof.
+  intros Hn Hw1 Hb Hw2 Hbw Hc. split; [|split; [reflexivity|destruct name; discriminate]].
+  assert (Hhd : not_quote (hd0 (body ++ ws2 ++ cl ++ r)) /\ is_ws (hd0 (body ++ ws2 ++ cl ++ r)) = false).
+  { destruct body as [|b0 body].
+    - rewrite (Hbw eq_refl). cbn [app]. destruct (closer_hd cl r Hc) as [-> | ->]; split; reflexivity.
+    - apply (ubody_hd_ok _ _ Hb). discriminate. }
+  destruct Hhd as [Hq Hz].
+  pose proof (scan_url name ws1 (body ++ ws2 ++ cl ++ r) TURL (len (name ++ 40 :: ws1 ++ body ++ ws2 ++ cl)) Hn Hw1 Hz) as H.
+  rassoc_in H. rassoc. apply H; [|reflexivity]. clear H.
+  destruct ws2 as [|w ws2].
+  - cbn [app] in *. pose proof (url_arg_open (len name + 1 + len ws1) body (cl ++ r) Hb Hq) as Ho. rassoc_in Ho.
+    rewrite Ho by (apply closer_url_loop; exact Hc). clear Ho.
+    pose proof (url_end_close (len name + 1 + len ws1 + len body) [] cl r (Forall_nil _) Hc) as He. cbn [app] in He.
+    rewrite He. rewrite !len_app, len_cons, !len_app. change (len (@nil Z)) with 0. f_equal; f_equal; lia.
+  - inversion Hw2 as [|? ? Hw Hw2']; subst.
+    pose proof (url_arg_stop (len name + 1 + len ws1) body (w :: ws2 ++ cl ++ r) Hb Hq) as Hs. cbn [app] in Hs. rassoc_in Hs.
+    cbn [app]. rewrite Hs by (pose proof (url_loop_ws w (ws2 ++ cl ++ r) Hw) as Hl; rassoc_in Hl; exact Hl). clear Hs.
+    unfold consume_whitespace. rewrite peekz_0. cbn [option_bind]. rewrite Hw. cbn [Z.ltb Z.compare]. cbv beta iota.
+    replace (len body + 1) with (len (body ++ [w])) by (rewrite len_app; reflexivity).
+    replace (body ++ w :: ws2 ++ cl ++ r ++ [0]) with ((body ++ [w]) ++ ws2 ++ cl ++ r ++ [0]) by (rewrite <- app_assoc; reflexivity).
+    rewrite skipz_len_app. rewrite (url_end_close _ ws2 cl r Hw2' Hc).
+    rewrite !len_app, !len_cons, !len_app, len_cons, len_app. change (len [w]) with 1. f_equal; f_equal; lia.
+Qed.
+
+Lemma munch_url_quoted name ws1 s ws2 cl r :
+  url_name name -> all_b is_ws ws1 -> qarg s (ws2 ++ cl ++ r) false -> all_b is_ws ws2 -> closer cl r ->
+  munch TURL (name ++ 40 :: ws1 ++ s ++ ws2 ++ cl) r.
+Proof.
+  intros Hn Hw1 Hs Hw2 Hc. split; [|split; [reflexivity|destruct name; discriminate]].
+  destruct (qarg_run _ _ _ Hs) as (Hrun & Hq & Hne).
+  assert (Hhd : hd0 (s ++ ws2 ++ cl ++ r) = hd0 s) by (destruct s; [congruence|reflexivity]).
+  assert (Hz : is_ws (hd0 (s ++ ws2 ++ cl ++ r)) = false) by (rewrite Hhd; revert Hq; cls; lia).
+  pose proof (scan_url name ws1 (s ++ ws2 ++ cl ++ r) TURL (len (name ++ 40 :: ws1 ++ s ++ ws2 ++ cl)) Hn Hw1 Hz) as H.
+  rassoc_in H. rassoc. apply H; [|reflexivity]. clear H.
+  pose proof (url_arg_quoted (len name + 1 + len ws1) s (ws2 ++ cl ++ r) false Hs) as Ha. rassoc_in Ha. rewrite Ha.
+  rewrite (url_end_close _ ws2 cl r Hw2 Hc).
+  rewrite !len_app, len_cons, !len_app. f_equal; f_equal; lia.
+Qed.
+
+(* bad-url: the unquoted url is cut by a byte that is not allowed in it *)
+Lemma munch_badurl_char name ws1 body bc rem cl r :
+  url_name name -> all_b is_ws ws1 -> ubody body (bc :: rem ++ cl ++ r) -> url_stop bc (rem ++ cl ++ r) ->
+  (body = [] -> not_quote bc) -> rbody (bc :: rem) (cl ++ r) -> closer cl r ->
+  munch TBadURL (name ++ 40 :: ws1 ++ body ++ bc :: rem ++ cl) r.
+Proof.
+  intros Hn Hw1 Hb Hst Hbq Hr Hc. split; [|split; [reflexivity|destruct name; discriminate]].
+  assert (Hhd : not_quote (hd0 (body ++ bc :: rem ++ cl ++ r)) /\ is_ws (hd0 (body ++ bc :: rem ++ cl ++ r)) = false).
+  { destruct body as [|b0 body].
+    - cbn [app hd0]. split; [apply Hbq; reflexivity|apply Hst].
+    - apply (ubody_hd_ok _ _ Hb). discriminate. }
+  destruct Hhd as [Hq Hz].
+  pose proof (scan_url name ws1 (body ++ bc :: rem ++ cl ++ r) TBadURL (len (name ++ 40 :: ws1 ++ body ++ bc :: rem ++ cl)) Hn Hw1 Hz) as H.
+  rassoc_in H. rassoc. apply H; [|reflexivity]. clear H.
+  pose proof (url_arg_stop (len name + 1 + len ws1) body (bc :: rem ++ cl ++ r) Hb Hq) as Hs. cbn [app] in Hs. rassoc_in Hs.
+  rewrite Hs by (pose proof (url_loop_stop bc (rem ++ cl ++ r) Hst) as Hl; rassoc_in Hl; exact Hl). clear Hs.
+  unfold consume_whitespace. rewrite peekz_0. cbn [option_bind]. destruct Hst as (_ & Hws & _). rewrite Hws.
+  cbn [Z.ltb Z.compare]. cbv beta iota.
+  pose proof (badurl_run (bc :: rem) cl r Hr Hc) as Hbr. cbn [app] in Hbr. rewrite Hbr. cbn [option_bind].
+  rewrite !len_app, !len_cons, !len_app, len_cons, len_app. f_equal; f_equal; lia.
+Qed.
+
+(* bad-url: whitespace inside the unquoted url, then more text *)
+Lemma munch_badurl_ws name ws1 body ws2 rem cl r :
+  url_name name -> all_b is_ws ws1 -> ubody body (ws2 ++ rem ++ cl ++ r) -> body <> [] -> all_b is_ws ws2 -> ws2 <> [] ->
+  rem <> [] -> is_ws (hd0 rem) = false -> hd0 rem <> 41 -> rbody rem (cl ++ r) -> closer cl r ->
+  munch TBadURL (name ++ 40 :: ws1 ++ body ++ ws2 ++ rem ++ cl) r.
+Proof.
+  intros Hn Hw1 Hb Hbne Hw2 Hw2ne Hrne Hrw Hr41 Hr Hc. split; [|split; [reflexivity|destruct name; discriminate]].
+  destruct (ubody_hd_ok _ _ Hb Hbne) as [Hq0 Hz0].
+  assert (Hhd : hd0 (body ++ ws2 ++ rem ++ cl ++ r) = hd0 body) by (destruct body; [congruence|reflexivity]).
+  assert (Hq : not_quote (hd0 (body ++ ws2 ++ rem ++ cl ++ r))) by (rewrite Hhd; exact Hq0).
+  assert (Hz : is_ws (hd0 (body ++ ws2 ++ rem ++ cl ++ r)) = false) by (rewrite Hhd; exact Hz0).
+  pose proof (scan_url name ws1 (body ++ ws2 ++ rem ++ cl ++ r) TBadURL (len (name ++ 40 :: ws1 ++ body ++ ws2 ++ rem ++ cl)) Hn Hw1 Hz) as H.
+  rassoc_in H. rassoc. apply H; [|reflexivity]. clear H.
+  destruct ws2 as [|w ws2]; [congruence|]. inversion Hw2 as [|? ? Hw Hw2']; subst.
+  pose proof (url_arg_stop (len name + 1 + len ws1) body (w :: ws2 ++ rem ++ cl ++ r) Hb Hq) as Hs. cbn [app] in Hs. rassoc_in Hs.
+  cbn [app]. rewrite Hs by (pose proof (url_loop_ws w (ws2 ++ rem ++ cl ++ r) Hw) as Hl; rassoc_in Hl; exact Hl). clear Hs.
+  unfold consume_whitespace. rewrite peekz_0. cbn [option_bind]. rewrite Hw. cbn [Z.ltb Z.compare]. cbv beta iota.
+  replace (len body + 1) with (len (body ++ [w])) by (rewrite len_app; reflexivity).
+  replace (body ++ w :: ws2 ++ rem ++ cl ++ r ++ [0]) with ((body ++ [w]) ++ ws2 ++ rem ++ cl ++ r ++ [0]) by (rewrite <- app_assoc; reflexivity).
+  rewrite skipz_len_app. rewrite (url_end_bad _ ws2 rem cl r Hw2' Hrne Hrw Hr41 Hr Hc).
+  rewrite !len_app, !len_cons, !len_app, len_cons, !len_app. change (len [w]) with 1. f_equal; f_equal; lia.
+Qed.
+
+(* bad-url: text after the quoted url *)
+Lemma munch_badurl_after_string name ws1 s ws2 rem cl r :
+  url_name name -> all_b is_ws ws1 -> qarg s (ws2 ++ rem ++ cl ++ r) false -> all_b is_ws ws2 ->
+  rem <> [] -> is_ws (hd0 rem) = false -> hd0 rem <> 41 -> rbody rem (cl ++ r) -> closer cl r ->
+  munch TBadURL (name ++ 40 :: ws1 ++ s ++ ws2 ++ rem ++ cl) r.
+Proof.
+  intros Hn Hw1 Hs Hw2 Hrne Hrw Hr41 Hr Hc. split; [|split; [reflexivity|destruct name; discriminate]].
+  destruct (qarg_run _ _ _ Hs) as (Hrun & Hq & Hne).
+  assert (Hhd : hd0 (s ++ ws2 ++ rem ++ cl ++ r) = hd0 s) by (destruct s; [congruence|reflexivity]).
+  assert (Hz : is_ws (hd0 (s ++ ws2 ++ rem ++ cl ++ r)) = false) by (rewrite Hhd; revert Hq; cls; lia).
+  pose proof (scan_url name ws1 (s ++ ws2 ++ rem ++ cl ++ r) TBadURL (len (name ++ 40 :: ws1 ++ s ++ ws2 ++ rem ++ cl)) Hn Hw1 Hz) as H.
+  rassoc_in H. rassoc. apply H; [|reflexivity]. clear H.
+  pose proof (url_arg_quoted (len name + 1 + len ws1) s (ws2 ++ rem ++ cl ++ r) false Hs) as Ha. rassoc_in Ha. rewrite Ha.
+  rewrite (url_end_bad _ ws2 rem cl r Hw2 Hrne Hrw Hr41 Hr Hc).
+  rewrite !len_app, len_cons, !len_app. f_equal; f_equal; lia.
+Qed.
+
+(* bad-url: the quoted url is a bad string *)
+Lemma munch_badurl_bad_string name ws1 s rem cl r :
+  url_name name -> all_b is_ws ws1 -> qarg s (rem ++ cl ++ r) true -> rbody rem (cl ++ r) -> closer cl r ->
+  munch TBadURL (name ++ 40 :: ws1 ++ s ++ rem ++ cl) r.
+Proof.
+  intros Hn Hw1 Hs Hr Hc. split; [|split; [reflexivity|destruct name; discriminate]].
+  destruct (qarg_run _ _ _ Hs) as (Hrun & Hq & Hne).
+  assert (Hhd : hd0 (s ++ rem ++ cl ++ r) = hd0 s) by (destruct s; [congruence|reflexivity]).
+  assert (Hz : is_ws (hd0 (s ++ rem ++ cl ++ r)) = false) by (rewrite Hhd; revert Hq; cls; lia).
+  pose proof (scan_url name ws1 (s ++ rem ++ cl ++ r) TBadURL (len (name ++ 40 :: ws1 ++ s ++ rem ++ cl)) Hn Hw1 Hz) as H.
+  rassoc_in H. rassoc. apply H; [|reflexivity]. clear H.
+  pose proof (url_arg_quoted (len name + 1 + len ws1) s (rem ++ cl ++ r) true Hs) as Ha. rassoc_in Ha. rewrite Ha.
+  rewrite (badurl_run rem cl r Hr Hc). cbn [option_bind].
+  rewrite !len_app, len_cons, !len_app. f_equal; f_equal; lia.
+Qed.
+
 (* --- the token grammar, class by class, with what may follow each token ------------------------------------------ *)
-(* tok_spec ty t r : t is a text of a token of type ty according to the railroad diagrams of the classes
-   proved so far, and the rest r of the input does not merge with it.  Not covered (no constructor): escapes
-   inside names and strings, url( / bad-url tokens, unicode-range tokens, delimiters. *)
+(* tok_spec ty t r : t is a text of a token of type ty according to the railroad diagrams of CSS Syntax (as this
+   lexer reads them), and the rest r of the input does not merge with it.  Every token type has its constructors:
+   whitespace, the fixed texts, comments (closed / cut by the end of input), names with escapes (ident, custom
+   property, function, at-keyword, hash, dimension unit), numbers, strings and bad strings with escapes and line
+   continuations, url( ) unquoted and quoted, the four bad-url shapes with the remnants up to ")", unicode-range,
+   and every delimiter byte with the followers that leave it a delimiter.  Not covered (no constructor): a
+   backslash followed by a UTF-8 lead byte whose continuation bytes are cut by the end of the input; "u"/"U" directly
+   followed by "+" and a malformed range (see u_follow). *)
 Inductive tok_spec : ttype -> list Z -> list Z -> Prop :=
 | TS_ws t r : t <> [] -> all_b is_ws t -> is_ws (hd0 r) = false -> tok_spec TWhitespace t r
 | TS_fixed ty t r : In (ty, t) fixed_tokens -> tok_spec ty t r
@@ -1072,7 +1517,29 @@ Inductive tok_spec : ttype -> list Z -> list Z -> Prop :=
     tok_spec TBadString (q :: body ++ [nl]) r
 | TS_string_eof q body bs : is_quote q -> sbody q body bs -> bs = [] \/ bs = [92] -> tok_spec TString (q :: body ++ bs) []
 | TS_delim c r : delim_ok c r -> tok_spec TDelim [c] r
-| TS_unicode_range t r : urange_text t r -> tok_spec TUnicodeRange t r.
+| TS_unicode_range t r : urange_text t r -> tok_spec TUnicodeRange t r
+| TS_comment_eof body : no_close body = true -> tok_spec TComment (47 :: 42 :: body) []
+| TS_url_unquoted name ws1 body ws2 cl r :
+    url_name name -> all_b is_ws ws1 -> ubody body (ws2 ++ cl ++ r) -> all_b is_ws ws2 -> (body = [] -> ws2 = []) ->
+    closer cl r -> tok_spec TURL (name ++ 40 :: ws1 ++ body ++ ws2 ++ cl) r
+| TS_url_quoted name ws1 s ws2 cl r :
+    url_name name -> all_b is_ws ws1 -> qarg s (ws2 ++ cl ++ r) false -> all_b is_ws ws2 -> closer cl r ->
+    tok_spec TURL (name ++ 40 :: ws1 ++ s ++ ws2 ++ cl) r
+| TS_badurl_char name ws1 body bc rem cl r :
+    url_name name -> all_b is_ws ws1 -> ubody body (bc :: rem ++ cl ++ r) -> url_stop bc (rem ++ cl ++ r) ->
+    (body = [] -> not_quote bc) -> rbody (bc :: rem) (cl ++ r) -> closer cl r ->
+    tok_spec TBadURL (name ++ 40 :: ws1 ++ body ++ bc :: rem ++ cl) r
+| TS_badurl_ws name ws1 body ws2 rem cl r :
+    url_name name -> all_b is_ws ws1 -> ubody body (ws2 ++ rem ++ cl ++ r) -> body <> [] -> all_b is_ws ws2 -> ws2 <> [] ->
+    rem <> [] -> is_ws (hd0 rem) = false -> hd0 rem <> 41 -> rbody rem (cl ++ r) -> closer cl r ->
+    tok_spec TBadURL (name ++ 40 :: ws1 ++ body ++ ws2 ++ rem ++ cl) r
+| TS_badurl_after_string name ws1 s ws2 rem cl r :
+    url_name name -> all_b is_ws ws1 -> qarg s (ws2 ++ rem ++ cl ++ r) false -> all_b is_ws ws2 ->
+    rem <> [] -> is_ws (hd0 rem) = false -> hd0 rem <> 41 -> rbody rem (cl ++ r) -> closer cl r ->
+    tok_spec TBadURL (name ++ 40 :: ws1 ++ s ++ ws2 ++ rem ++ cl) r
+| TS_badurl_bad_string name ws1 s rem cl r :
+    url_name name -> all_b is_ws ws1 -> qarg s (rem ++ cl ++ r) true -> rbody rem (cl ++ r) -> closer cl r ->
+    tok_spec TBadURL (name ++ 40 :: ws1 ++ s ++ rem ++ cl) r.
 
 Lemma tok_spec_munch ty t r : tok_spec ty t r -> munch ty t r.
 Proof.
@@ -1093,6 +1560,13 @@ Proof.
   - apply munch_string_eof; assumption.
   - apply munch_delim; assumption.
   - apply munch_unicode_range; assumption.
+  - apply munch_comment_eof; assumption.
+  - apply munch_url_unquoted; assumption.
+  - apply munch_url_quoted; assumption.
+  - apply munch_badurl_char; assumption.
+  - apply munch_badurl_ws; assumption.
+  - apply munch_badurl_after_string; assumption.
+  - apply munch_badurl_bad_string; assumption.
 Qed.
 
 (* every token is written according to its class and may be followed by the texts of the tokens after it *)
@@ -1118,6 +1592,8 @@ Proof.
 Qed.
 
 (* "a: 1.e3px" written as  a  :  ws  1  .  e3px : the '.' is given back by the number, and "-1e" "+" ... *)
+Ltac nf_solve := split; [reflexivity|apply dead_bs_not; cbn; lia].
+Ltac nns_solve := split; [reflexivity|split; [apply dead_bs_not; cbn; lia|cbn; intros; lia]].
 Example seq_ok_example :
   seq_ok [ (TIdent, [97]); (TColon, [58]); (TWhitespace, [32]); (TNumber, [49]); (TColon, [58]);
            (TDimension, [45; 49; 46; 53; 101; 109]); (TSemicolon, [59]);
@@ -1127,18 +1603,49 @@ Proof.
   { intros P l H. unfold all_b. rewrite Forall_forall. rewrite forallb_forall in H. exact H. }
   cbn [seq_ok fst snd map concat app].
   repeat split.
-  - apply TS_ident; [apply IT_core, (IC_char 97 []); [reflexivity|constructor]|split; [reflexivity|cbn; lia]|cbn; lia|cbn; intros; discriminate].
+  - apply TS_ident; [apply IT_core, (IC_char 97 []); [reflexivity|constructor]|nf_solve|cbn; lia|cbn; intros; discriminate].
   - apply TS_fixed. cbn. auto.
   - apply TS_ws; [discriminate|apply Hall; reflexivity|reflexivity].
-  - apply (TS_number [] [49] [] []); [left; reflexivity|apply Hall; reflexivity|constructor|left; discriminate|constructor| |cbn; lia|repeat split; cbn; lia].
+  - apply (TS_number [] [49] [] []); [left; reflexivity|apply Hall; reflexivity|constructor|left; discriminate|constructor| |cbn; lia|nns_solve].
     repeat split; cbn; intros; try lia; try discriminate.
   - apply TS_fixed. cbn. auto.
   - apply (TS_dimension [45] [49] [53] [] [101; 109]);
-      [right; right; reflexivity|apply Hall; reflexivity|apply Hall; reflexivity|left; discriminate|constructor| | |split; [reflexivity|cbn; lia]].
+      [right; right; reflexivity|apply Hall; reflexivity|apply Hall; reflexivity|left; discriminate|constructor| | |nf_solve].
     + left. apply IT_core, (IC_char 101 [109]); [reflexivity|apply all_b_nbody, Hall; reflexivity].
     + repeat split; cbn; intros; try lia; try discriminate.
   - apply TS_fixed. cbn. auto 10.
   - apply (TS_string 34 [120]); [left; reflexivity|apply all_b_sbody, Hall; reflexivity].
   - apply (TS_comment []). reflexivity.
   - apply (TS_percentage [] [53] [] []); [left; reflexivity|apply Hall; reflexivity|constructor|left; discriminate|constructor].
+Qed.
+
+(*  \41 b  ws  url(a\)b)  url(a b\))  \  newline : a hex escape ends at its single whitespace, "\)" does not close a
+    url or the remnants of a bad url, and a backslash before a line break is a delimiter *)
+Example seq_ok_example_escapes :
+  seq_ok [ (TIdent, [92; 52; 49; 32; 98]); (TWhitespace, [32]);
+           (TURL, [117; 114; 108; 40; 97; 92; 41; 98; 41]);
+           (TBadURL, [117; 114; 108; 40; 97; 32; 98; 92; 41; 41]);
+           (TDelim, [92]); (TWhitespace, [10]) ].
+Proof.
+  assert (Hall : forall P l, forallb P l = true -> all_b P l).
+  { intros P l H. unfold all_b. rewrite Forall_forall. rewrite forallb_forall in H. exact H. }
+  assert (Hurl : url_name [117; 114; 108]).
+  { split; [|reflexivity]. apply IT_core, (IC_char 117 [114; 108]); [reflexivity|apply all_b_nbody, Hall; reflexivity]. }
+  assert (Hesc : esc_text [92; 41] any_next) by (apply Esc_char; [reflexivity|reflexivity|lia]).
+  cbn [seq_ok fst snd map concat app].
+  repeat split.
+  - apply TS_ident; [|nf_solve|cbn; lia|exact I].
+    apply IT_core. apply (IC_esc [92; 52; 49; 32] any_next [98]); [|reflexivity|apply NB_char; [reflexivity|constructor]].
+    apply (Esc_hex_ws [52; 49] 32); [apply Hall; reflexivity|unfold len; cbn; lia|reflexivity].
+  - apply TS_ws; [discriminate|apply Hall; reflexivity|reflexivity].
+  - apply (TS_url_unquoted [117; 114; 108] [] [97; 92; 41; 98] [] [41]);
+      [exact Hurl|constructor| |constructor|reflexivity|constructor].
+    apply UB_char; [reflexivity|]. apply (UB_esc [92; 41] any_next [98]); [exact Hesc|reflexivity|].
+    apply UB_char; [reflexivity|constructor].
+  - apply (TS_badurl_ws [117; 114; 108] [] [97] [32] [98; 92; 41] [41]);
+      [exact Hurl|constructor|apply UB_char; [reflexivity|constructor]|discriminate|apply Hall; reflexivity|discriminate
+      |discriminate|reflexivity|cbn; lia| |constructor].
+    apply RB_char; [lia|lia|]. apply (RB_esc [92; 41] any_next []); [exact Hesc|reflexivity|constructor].
+  - apply TS_delim. unfold delim_ok. do 11 right. split; [reflexivity|right; reflexivity].
+  - apply TS_ws; [discriminate|apply Hall; reflexivity|reflexivity].
 Qed.
